@@ -461,6 +461,9 @@ func parseTraversalStep(nativeStep hcl.Traverser, from inputTokens) (before inpu
             key := newNumber(valToken)
             step.key = children.Append(key)
             children.AppendUnstructuredTokens(valAfter.Tokens())
+        default:
+            // a key of another type (foo[true], foo[null]): keep its tokens
+            children.AppendUnstructuredTokens(keyTokens.Tokens())
         }
 
         children.AppendUnstructuredTokens(cBrack.Tokens())
